@@ -197,6 +197,8 @@ def single_transformations(stmts, quick):
         T.append(("trailing_comment", i, {"trailing_comment": {i}}))
         if i + 1 < len(stmts) and stmts[i + 1].kind == "code":
             T.append(("join", i, {"join_next": {i}}))
+            if not quick or i % 3 == 0:
+                T.append(("join_tight", i, {"join_next": {i}, "join_sep": ";"}))
         for t in range(1, len(stmts[i].toks)):
             for k, style in enumerate(layout.SPLIT_STYLES):
                 if quick and k >= 2 and (i + t) % 4:
